@@ -6,7 +6,7 @@ run the quick check of the property it breaks (and of any property listed under 
 VERIF_REPO pointing at the worktree, record whether a VIOLATION line was printed, remove
 the worktree.  /repo itself is never modified.  Results: seeded/results.json
 
-usage: seedtest.py [seed-id ...] [--tier quick|thorough]
+usage: seedtest.py [seed-id ...] [--tier=thorough] [--jobs N]
 """
 import json, os, re, subprocess, sys, time
 
@@ -18,43 +18,70 @@ def sh(cmd, **kw):
     return subprocess.run(cmd, stdout=subprocess.PIPE, stderr=subprocess.STDOUT, text=True, **kw)
 
 
-def main():
-    args = [a for a in sys.argv[1:] if not a.startswith("--")]
-    tier = "thorough" if "--tier=thorough" in sys.argv or "thorough" in sys.argv[1:] else "quick"
-    ids = args or sorted(d for d in os.listdir(SEEDED) if os.path.isdir(os.path.join(SEEDED, d)))
+def run_seed(sid, tier):
+    import hashlib, shutil
+    d = os.path.join(SEEDED, sid)
+    meta = json.load(open(os.path.join(d, "meta.json")))
+    props = [meta["property"]] + list(meta.get("also", []))
+    wt = "/tmp/seedrun_%s_%d" % (sid, os.getpid())
+    r = sh(["git", "-C", "/repo", "worktree", "add", "-q", "--detach", wt, "HEAD"])
+    if r.returncode != 0:
+        print(sid, "worktree failed", r.stdout)
+        return None
     try:
-        results = json.load(open(os.path.join(SEEDED, "results.json")))
-    except OSError:
-        results = {}
-    for sid in ids:
-        d = os.path.join(SEEDED, sid)
-        meta = json.load(open(os.path.join(d, "meta.json")))
-        props = [meta["property"]] + list(meta.get("also", []))
-        wt = "/tmp/seedrun_%s_%d" % (sid, os.getpid())
-        r = sh(["git", "-C", "/repo", "worktree", "add", "-q", "--detach", wt, "HEAD"])
+        r = sh(["git", "-C", wt, "apply", os.path.join(d, "patch.diff")])
         if r.returncode != 0:
-            print(sid, "worktree failed", r.stdout); continue
-        try:
-            r = sh(["git", "-C", wt, "apply", os.path.join(d, "patch.diff")])
-            if r.returncode != 0:
-                results[sid] = {"error": "patch does not apply to current /repo HEAD: " + r.stdout[-300:]}
-                print(sid, "PATCH DOES NOT APPLY"); continue
-            res = {}
-            for p in props:
-                t = time.time()
-                env = dict(os.environ, VERIF_REPO=wt, VERIF_TIER=tier)
-                r = sh(["python3", os.path.join(VERIF, "tools/check.py"), p, "--tier", tier], cwd=VERIF, env=env)
-                viol = [l for l in r.stdout.splitlines() if l.startswith("VIOLATION")]
-                res[p] = {"rc": r.returncode, "violations": viol[:3], "wall_s": round(time.time() - t, 1),
-                          "concrete": any("no-failing-input-found" not in v for v in viol)}
-                print("%-12s %s rc=%d %s" % (sid, p, r.returncode, "CAUGHT" if viol else "missed"), flush=True)
-            results[sid] = {"what": meta.get("what"), "needs": meta.get("needs"), "checks": res, "tier": tier,
-                            "repo_head": sh(["git", "-C", "/repo", "rev-parse", "--short", "HEAD"]).stdout.strip()}
-        finally:
-            sh(["git", "-C", "/repo", "worktree", "remove", "--force", wt])
-    json.dump(results, open(os.path.join(SEEDED, "results.json"), "w"), indent=1, sort_keys=True)
-    # restore Gen files for the real tree (a seed may have changed a constant)
-    sh(["python3", os.path.join(VERIF, "tools/setup.py")], cwd=VERIF)
+            print(sid, "PATCH DOES NOT APPLY")
+            return {"error": "patch does not apply to current /repo HEAD: " + r.stdout[-300:]}
+        res = {}
+        for p in props:
+            t = time.time()
+            env = dict(os.environ, VERIF_REPO=wt, VERIF_TIER=tier)
+            r = sh(["python3", os.path.join(VERIF, "tools/check.py"), p, "--tier", tier], cwd=VERIF, env=env)
+            viol = [l for l in r.stdout.splitlines() if l.startswith("VIOLATION")]
+            res[p] = {"rc": r.returncode, "violations": viol[:3], "wall_s": round(time.time() - t, 1),
+                      "concrete": any("no-failing-input-found" not in v for v in viol)}
+            if r.returncode != 0 and not viol:
+                res[p]["tail"] = r.stdout[-600:]
+            print("%-12s %s rc=%d %s" % (sid, p, r.returncode, "CAUGHT" if viol else "missed"), flush=True)
+        return {"what": meta.get("what"), "needs": meta.get("needs"), "checks": res, "tier": tier,
+                "repo_head": sh(["git", "-C", "/repo", "rev-parse", "--short", "HEAD"]).stdout.strip()}
+    finally:
+        sh(["git", "-C", "/repo", "worktree", "remove", "--force", wt])
+        # the private Lean copy and the harness binaries of this scratch tree are no longer needed (replays stay)
+        alt = os.path.join(VERIF, "build", "alt_" + hashlib.sha1(wt.encode()).hexdigest()[:8])
+        for sub in os.listdir(alt) if os.path.isdir(alt) else []:
+            if sub != "replay":
+                pth = os.path.join(alt, sub)
+                shutil.rmtree(pth, ignore_errors=True) if os.path.isdir(pth) else os.remove(pth)
+
+
+def main():
+    from concurrent.futures import ThreadPoolExecutor
+    import threading
+    argv = sys.argv[1:]
+    jobs = 1
+    if "--jobs" in argv:
+        i = argv.index("--jobs"); jobs = int(argv[i + 1]); del argv[i:i + 2]
+    args = [a for a in argv if not a.startswith("--") and a != "thorough"]
+    tier = "thorough" if "--tier=thorough" in argv or "thorough" in argv else "quick"
+    ids = args or sorted(d for d in os.listdir(SEEDED) if os.path.isdir(os.path.join(SEEDED, d)) and d != "harmless")
+    lock = threading.Lock()
+
+    def one(sid):
+        r = run_seed(sid, tier)
+        if r is None:
+            return
+        with lock:  # results.json is rewritten after every seed, so an interrupted run loses nothing
+            try:
+                results = json.load(open(os.path.join(SEEDED, "results.json")))
+            except OSError:
+                results = {}
+            results[sid] = r
+            json.dump(results, open(os.path.join(SEEDED, "results.json"), "w"), indent=1, sort_keys=True)
+    with ThreadPoolExecutor(jobs) as ex:
+        list(ex.map(one, ids))
+    # (scratch-tree runs work on a private copy of the Lean project: the real tree's Gen files are untouched)
 
 
 if __name__ == "__main__":
